@@ -17,7 +17,7 @@ import c10_gen  # noqa
 import c10_tables  # noqa
 
 PID = 'C12'
-CHECKS = ['facet_mesh', 'incidence_triples', 'shape', 'row_order', 'normals',
+CHECKS = ['facet_mesh', 'incidence_triples', 'shape', 'row_order', 'normals', 'areas', 'cell_volumes',
           'wf_mesh', 'oriented_conforming', 'cells_meet_in_faces', 'cells_outward',
           'model_structure', 'model_opposite_signs', 'model_div_area', 'model_div_volume']
 HEADER = ['From Coq Require Import List ZArith Bool Arith.', 'Import ListNotations.',
@@ -34,7 +34,7 @@ def case_checks(case, r):
     valid = case.get('valid', True)
     out = []
     if inc is None or c10.is_err(inc):
-        out += ['false'] * 5 if valid else ['true'] * 5
+        out += ['false'] * 7 if valid else ['true'] * 7
     else:
         fe = inc['facets']
         if set(fe) - {'tri', 'quad'}:
@@ -52,7 +52,25 @@ def case_checks(case, r):
         ns = lib.coq_list([lib.coq_list(['(%s, %s)' % (lib.coq_Z(a), lib.coq_Z(b)) for a, b in row])
                            for row in inc['normals']])
         defs.append(f'Definition ns{i} : list (list (Z * Z)) := {ns}.')
-        out.append(f'check_normals pos{i} m{i} ns{i}')
+        # float32 coordinates: the kernels then work in float32 (unit / direction to ~1e-7 only): judged by
+        # the oracle with a float32 tolerance, not by the 2^-40 check
+        f32 = case.get('dtype') == 'float32'
+        out.append('true' if f32 else f'check_normals pos{i} m{i} ns{i}')
+        if inc.get('areas') is not None and not f32:
+            ar = lib.coq_list(['(%s, %s)' % (lib.coq_Z(a), lib.coq_Z(b))
+                               for a, b in (c10.unscale(x, case, 2) for x in inc['areas'])])
+            out.append(f'check_areas pos{i} m{i} {ar}')
+        else:
+            out.append('true')
+        vs = inc.get('volumes')
+        if vs is None or case.get('offset') or not valid:
+            out.append('true')      # far from the origin femio's float32 volume kernels are not accurate
+        elif c10.is_err(vs):
+            out.append('false')
+        else:
+            vl = lib.coq_list(['(%s, %s)' % (lib.coq_Z(a), lib.coq_Z(b))
+                               for a, b in (c10.unscale(x, case, 3) for x in vs)])
+            out.append(f'check_cell_volumes pos{i} m{i} {vl}')
     if valid:
         out += [f'wf_mesh m{i}', f'oriented_conforming m{i}', f'cells_meet_in_faces m{i}',
                 f'model_cells_outward pos{i} m{i}', f'model_structure m{i}',
@@ -178,6 +196,35 @@ def oracle(case, r):
         planar = case['meta'].get('warp') != 'twist'
         if planar and sV / 3 != vol:
             bad.append(('divergence_volume', {'element': eid, 'third_of_sum': str(sV / 3), 'volume': str(vol)}))
+    # closure and volume identity with the implementation's OWN areas, normals and cell volumes
+    areas = inc.get('areas')
+    if areas is not None and len(areas) == len(facets) and len(inc['normals']) == len(facets):
+        ar = [Fraction(*c10.unscale(x, case, 2)) for x in areas]
+        nr = [[Fraction(*x) for x in row] for row in inc['normals']]
+        vols = inc.get('volumes')
+        for ci, eid in enumerate(cell_ids):
+            if ci not in rows:
+                continue
+            tot = [Fraction(0)] * 3
+            sa = Fraction(0)
+            sv = Fraction(0)
+            for j, v in rows[ci]:
+                pts = [xyz[i] for i in facets[j]]
+                fc = [Fraction(sum(p[k] for p in pts), len(pts)) for k in range(3)]
+                for k in range(3):
+                    tot[k] += v * ar[j] * nr[j][k]
+                sa += ar[j]
+                sv += v * ar[j] * sum(nr[j][k] * fc[k] for k in range(3))
+            if sa > 0 and max(abs(x) for x in tot) > sa / 10 ** 6:
+                bad.append(('own_area_vectors_do_not_sum_to_zero',
+                            {'element': eid, 'relative': float(max(abs(x) for x in tot) / sa)}))
+                break
+            if isinstance(vols, list) and len(vols) == len(cell_ids) and not case.get('offset'):
+                vi = Fraction(*c10.unscale(vols[ci], case, 3))
+                if abs(sv / 3 - vi) > abs(vi) / 10 ** 4 + Fraction(1, 10 ** 9):
+                    bad.append(('own_volume_identity', {'element': eid, 'third_of_sum': float(sv / 3),
+                                                        'implementation_volume': float(vi)}))
+                    break
     if set(fkeys) != all_face_keys:
         bad.append(('facets_are_not_the_cell_faces', {'n_facets': len(fkeys), 'n_faces': len(all_face_keys)}))
     for j in range(len(facets)):
@@ -198,7 +245,9 @@ def oracle(case, r):
         na = sum(nv[k] * A2[k] for k in range(3))
         # unit length, along the exact area vector of the stored orientation (sin^2 <= 2^-40: relative
         # to the facet, not to the distance from the origin)
-        if na <= 0 or abs(nn - 1) > Fraction(1, 2 ** 30) or (nn * aa - na * na) * 2 ** 40 > nn * aa:
+        f32 = case.get('dtype') == 'float32'
+        if na <= 0 or abs(nn - 1) > Fraction(1, 2 ** (18 if f32 else 30)) or \
+                (nn * aa - na * na) * 2 ** (30 if f32 else 40) > nn * aa:
             bad.append(('normal', {'facet': list(facets[j])}))
             break
     return bad[:6]
@@ -238,7 +287,10 @@ def gen_cases(ctx):
         # scales). Facets, signs and normals are translation-invariant (C12_translation_invariant), so the
         # model runs on the mesh at the origin; the normal tolerance stays 2^-40 (sin^2 of the angle),
         # i.e. relative to the local scale — the centroid-shifted kernels deliver ~1e-16 there
-        if (k // 2) % 3 == 2:
+        if k % 10 == 0 and 'scale' not in c:
+            c['dtype'] = ['float32', 'int64', 'int32'][(k // 10) % 3]
+            c['meta'] = dict(c['meta'], dtype=c['dtype'])
+        if (k // 2) % 3 == 2 and 'dtype' not in c:
             c['offset'] = [rng.choice([-1, 1]) * rng.randint(2 * 10 ** 6, 2 * 10 ** 7) for _ in range(3)]
             c['meta'] = dict(c['meta'], offset='1e6..1e7')
             # integer / dyadic coordinates of this size still multiply exactly in binary64; realistic
@@ -255,17 +307,37 @@ def gen_cases(ctx):
             m = c10_gen.gen_mesh(rng, kind=kind, dims=(1, 1, 1), affine=aff)
             cases.append({'nodes': m['nodes'], 'blocks': m['blocks'], 'meta': m['meta'], 'valid': True})
     # same-object stream: compute, move the mesh in place, compute again on the SAME object
-    for k in range(15 if ctx.tier == 'quick' else 150):
+    for k in range(20 if ctx.tier == 'quick' else 200):
         m = c10_gen.gen_mesh(rng, kind=kinds[k % 2], dims=rng.choice([(2, 1, 1), (2, 2, 1), (2, 2, 2)]),
                              warp=rng.choice([None, 'frustum']), max_elems=16)
         c = {'nodes': m['nodes'], 'blocks': m['blocks'], 'meta': m['meta'], 'valid': True}
-        if k % 3 == 2:
+        if k % 5 == 3:
+            # remove_useless_nodes() directly on a mesh with unreferenced nodes stored first / middle /
+            # last: the node table is re-sorted by id, everything keyed by storage position must follow
+            m = c10_gen.gen_mesh(rng, kind=kinds[(k // 5) % 2], dims=rng.choice([(2, 1, 1), (2, 2, 1)]),
+                                 extra_nodes=rng.choice([2, 5]), extra_pos=['last', 'first', 'middle'][(k // 5) % 3],
+                                 id_mode=rng.choice(['sparse', 'dense_ends', 'large']), max_elems=16)
+            c = {'nodes': m['nodes'], 'blocks': m['blocks'], 'meta': m['meta'], 'valid': True}
+            used = {i for es in m['blocks'].values() for _, cc in es for i in cc}
+            c['move'] = {'kind': 'useless'}
+            c['moved_nodes'] = sorted([[i, list(p)] for i, p in m['nodes'] if i in used], key=lambda n: n[0])
+        elif k % 5 == 4:
+            c['move'] = {'kind': 'repeat'}
+            c['moved_nodes'] = [[i, list(p)] for i, p in m['nodes']]
+        elif k % 3 == 2:
             # query the plain incidence / adjacency first, then re-order the connectivity rows in place
             # (fem_data.elements.data = data[perm]); ids keep their storage slots
+            while True:
+                m = c10_gen.gen_mesh(rng, kind=['hex', 'hex', 'tet'][(k // 3) % 3],
+                                     dims=rng.choice([(2, 2, 1), (2, 2, 2), (3, 2, 1)]), max_elems=16)
+                if sum(len(v) for v in m['blocks'].values()) >= 3:
+                    break
+            c = {'nodes': m['nodes'], 'blocks': m['blocks'], 'meta': m['meta'], 'valid': True}
             typ = next(iter(m['blocks']))
             es = m['blocks'][typ]
             perm = list(range(len(es)))
-            rng.shuffle(perm)
+            while perm == list(range(len(es))):
+                rng.shuffle(perm)
             c['move'] = {'kind': 'permute', 'perm': perm, 'adjacency': bool(k % 2)}
             c['moved_nodes'] = [[i, list(p)] for i, p in m['nodes']]
             c['moved_blocks'] = {typ: [[es[j][0], es[perm[j]][1]] for j in range(len(es))]}
@@ -348,6 +420,12 @@ def judge(case, r):
     got = [[Fraction(*x) for x in row] for row in im['moved_xyz']]
     if any(abs(g - e) > Fraction(1, 10 ** 9) for gr, er in zip(got, exp) for g, e in zip(gr, er)):
         bad.append(('moved_coordinates', None))
+    st = im['second'].get('state')
+    if st is not None:
+        if st['nodes'] != [n[0] for n in case['moved_nodes']] or \
+                {t: [[e, list(d)] for e, d in zip(v['ids'], v['data'])] for t, v in st['blocks'].items()} != \
+                {t: [[e, list(cc)] for e, cc in es] for t, es in moved['blocks'].items()}:
+            bad.append(('state_after_modification_unexpected', None))
     bad += [('after_in_place_move:' + a, b) for a, b in oracle(moved, {'incidence': im['second']})]
     s2, fr = im['second'], im['fresh']
     if s2['triples'] != fr['triples'] or s2['facets'] != fr['facets'] or s2['shape'] != fr['shape']:
@@ -363,13 +441,13 @@ def judge(case, r):
 def signature(case, check):
     return {'check': check, 'kind': case['meta'].get('kind'), 'warp': case['meta'].get('warp'),
             'types': sorted(case['blocks']), 'scale': case['meta'].get('scale', '1'),
-            'offset': case['meta'].get('offset', '0'),
+            'offset': case['meta'].get('offset', '0'), 'dtype': case['meta'].get('dtype'),
             'history': case['meta'].get('same_object', 'single_call')}
 
 
 def shrink(ctx, case, still_fails, budget=8):
     cur = case
-    if (case.get('move') or {}).get('kind') == 'permute':
+    if (case.get('move') or {}).get('kind') in ('permute', 'useless'):
         return cur          # the permutation refers to the element rows: reported unshrunk
     for _ in range(budget):
         cands = []
@@ -503,7 +581,8 @@ def main(ctx):
         ob = judge(dict(small, id=0), rr)
         ctx.violation('impl-violation',
                       {'nodes': small['nodes'], 'blocks': small['blocks'], 'meta': c['meta'],
-                       'scale': small.get('scale'), 'offset': small.get('offset'), 'move': small.get('move'),
+                       'scale': small.get('scale'), 'offset': small.get('offset'), 'dtype': small.get('dtype'),
+                       'move': small.get('move'),
                        'moved_nodes': small.get('moved_nodes'), 'moved_blocks': small.get('moved_blocks'),
                        'shrunk_from_elements': sum(len(v) for v in c['blocks'].values())},
                       'each cell incident to exactly its faces; interior facets two cells with opposite signs; '
@@ -547,7 +626,7 @@ def replay(path):
     ctx = lib.Ctx(PID, 'quick')
     case = {'id': 0, 'nodes': c['nodes'], 'blocks': c['blocks'], 'meta': c.get('meta', {}),
             'want': ['incidence'], 'valid': True}
-    for k in ('scale', 'offset'):
+    for k in ('scale', 'offset', 'dtype'):
         if c.get(k):
             case[k] = c[k]
     if c.get('move'):
